@@ -159,7 +159,9 @@ SPEC = {
         "the end (not-run when a free unused port is no longer bindable)); the coverage statistics (st=) are computed by the runner, "
         "starved is recomputed by the driver with the extracted starvedb, pred/skp/pwr are computed by the driver",
         "E lines, connection counts: the refiller's first round asks for per_shard connections per shard and node minus the node's first "
-        "pool connection (plain port) - read from connection_pool.rs start_filling, hand-written in the OCaml driver, not modelled in Coq",
+        "pool connection (plain port) - read from connection_pool.rs start_filling, modelled as runs_for_shard (Gallina, extracted, "
+        "C11_connect_runs); the interval is the extracted shard_count_bounds (C11_connect_count_bounds); that a node's first pool "
+        "connection is the first plain-port pool connection the mock accepted from it is read off the trace by the OCaml driver",
     ],
     "assumptions": [
         "msb_ignore <= 63 (the quantifier of C11; >= 64 overflows the Rust shift and is not generated)",
